@@ -21,14 +21,15 @@ Definition e_check (d : data) : data :=
 (* ---- acceptance of the observed GLOBAL trace by the global model (Accept.v) ----
    event: [job; kind; arg]   kind 0 W status, 1 FStart, 2 Poll status, 3 FReturn (arg = returned value), 4 execute() returns,
    5 submit called, 6 gather entered, 7 gather returned, 8 early sentinel, 9 sentinel, 10 close entered, 11 close returned,
-   12 search() returned, 13 another search() call (arg: 0 budget untouched, 1 search(timeout=), 2 evaluator.timeout set), 14 _on_done returned *)
+   12 search() returned, 13 another search() call (arg: 0 budget untouched, 1 search(timeout=), 2 evaluator.timeout set), 14 _on_done returned,
+   15 the evaluator's counters (arg = num_jobs_submitted - num_jobs_gathered) *)
 Definition d_budget (z : Z) : option budget := if z =? 1 then Some BSearch else if z =? 2 then Some BEval else None.
 Definition d_oev (d : data) : oev :=
   let j := dnat (dnth 0 d) in let k := dZ (dnth 1 d) in let a := dnth 2 d in
   if k =? 0 then OW j (d_st a) else if k =? 1 then OStart j else if k =? 2 then OPoll j (d_st a) else if k =? 3 then ORet j (dZ a)
   else if k =? 4 then OFin j else if k =? 5 then OSubmitCall else if k =? 6 then OGatherIn else if k =? 7 then OGatherOut
   else if k =? 8 then OSent0 else if k =? 9 then OSent else if k =? 10 then OCloseIn else if k =? 11 then OCloseOut
-  else if k =? 12 then OReturn else if k =? 13 then OAgain (d_budget (dZ a)) else OCollected j.
+  else if k =? 12 then OReturn else if k =? 13 then OAgain (d_budget (dZ a)) else if k =? 14 then OCollected j else OCounts (dnat a).
 
 (* 1402: [workers; budget; events; table; fail_code] -> [accepted; position; code; races; phase; tables agree; jobs; strict violations] *)
 Definition e_accept (d : data) : data :=
